@@ -53,6 +53,37 @@ pub fn find_markers(text: &str) -> Vec<(String, usize)> {
                 i = j + 1;
                 continue;
             }
+            if j > i + 2 && j < b.len() && b[j] == b'\\' {
+                // multi-line marker string `"s<k>\z⏎  x"` / `"s<k>\⏎x"`: the marker is on the line
+                // the string starts on; skip to the closing quote counting the lines inside
+                let name = text[i + 1..j].to_owned();
+                let start_line = line;
+                let mut k = j;
+                let mut closed = false;
+                while k < b.len() {
+                    if b[k] == b'\\' {
+                        if k + 1 < b.len() && b[k + 1] == b'\n' {
+                            line += 1;
+                        }
+                        k += 2;
+                        continue;
+                    }
+                    if b[k] == b'\n' {
+                        line += 1;
+                    }
+                    if b[k] == c {
+                        closed = true;
+                        break;
+                    }
+                    k += 1;
+                }
+                if closed {
+                    out.push((name, start_line));
+                    i = k + 1;
+                    continue;
+                }
+                line = start_line;
+            }
         }
         if boundary_before && is_word_byte(c) {
             let mut j = i;
@@ -167,20 +198,71 @@ fn gen_pipeline(rng: &mut Rng, defaults: &[String]) -> Pipeline {
     }
 }
 
-pub fn gen_marker_program(rng: &mut Rng) -> String {
+pub struct MarkerProgram {
+    pub code: String,
+    /// block comments that span several lines may sit between two statements (only there can
+    /// `Block::remove_statement` re-attach them: finding F32)
+    pub f32_possible: bool,
+}
+
+pub fn gen_marker_program(rng: &mut Rng) -> MarkerProgram {
     let mut g = ProgGen::new(rng.fork(), 25 + rng.below(90) as i32);
     g.markers = true;
+    g.multiline_strings = rng.chance(1, 2);
     g.typed = rng.chance(1, 4);
     let depth = 1 + rng.below(3) as u32;
     g.block(depth, false, true);
     let toks = std::mem::take(&mut g.toks);
-    let layout = Layout {
-        newline: *rng.pick(&["\n", "\n", "\n", "\r\n"]),
-        comments: *rng.pick(&[0u32, 80, 200]),
-        breaks: *rng.pick(&[300u32, 500, 700]),
-        f7: 0,
-    };
-    lay_out(rng, &toks, &layout)
+    let mut layout = Layout::plain(
+        *rng.pick(&["\n", "\n", "\n", "\r\n"]),
+        *rng.pick(&[0u32, 80, 200]),
+        *rng.pick(&[300u32, 500, 700]),
+        0,
+    );
+    layout.boundaries = super::c03::statement_boundaries(&toks, &g.stmt_starts);
+    layout.ml_at_boundary = rng.chance(1, 3);
+    layout.doc_blocks = *rng.pick(&[0u32, 150, 400]);
+    MarkerProgram { code: lay_out(rng, &toks, &layout), f32_possible: layout.ml_at_boundary }
+}
+
+// ------------------------------------------------------------------------------------------
+// bundling (retain_lines + path require mode)
+// ------------------------------------------------------------------------------------------
+
+/// Run the real pipeline on a multi-file in-memory project; `files[0]` is the entry point.
+pub fn real_bundle(files: &[(String, String)], rules: &[String]) -> Result<String, String> {
+    let resources = darklua_core::Resources::from_memory();
+    for (path, content) in files {
+        resources.write(path, content).map_err(|e| format!("{:?}", e))?;
+    }
+    let config_text = format!(
+        "{{generator: 'retain_lines', bundle: {{require_mode: 'path'}}, rules: [{}]}}",
+        rules.iter().map(|r| rule_json(r)).collect::<Vec<_>>().join(", ")
+    );
+    let config: darklua_core::Configuration = json5::from_str(&config_text).map_err(|e| e.to_string())?;
+    let entry = files[0].0.clone();
+    let result = std::panic::catch_unwind(std::panic::AssertUnwindSafe(|| {
+        darklua_core::process(
+            &resources,
+            darklua_core::Options::new(&entry)
+                .with_output("out/bundle.lua")
+                .with_configuration(config),
+        )
+    }));
+    match result {
+        Err(_) => Err("panic".to_owned()),
+        Ok(Err(e)) => Err(format!("error: {}", e)),
+        Ok(Ok(tree)) => {
+            let errors = tree.collect_errors();
+            if !errors.is_empty() {
+                return Err(format!(
+                    "errors: {}",
+                    errors.iter().map(|e| e.to_string()).collect::<Vec<_>>().join("; ")
+                ));
+            }
+            resources.get("out/bundle.lua").map_err(|e| format!("{:?}", e))
+        }
+    }
 }
 
 // ------------------------------------------------------------------------------------------
@@ -283,6 +365,117 @@ fn oracle_fails(code: &str, config: &str, shift: usize) -> Option<String> {
     marker_failure(code, &out, shift, config.contains("compute_expression"))
 }
 
+/// What is known about the statements of a program with respect to the two defects of
+/// `Block::remove_statement` (`None` = not determined, fall back to a textual over-approximation).
+#[derive(Debug, Clone, Copy, Default)]
+pub struct RemovalFlags {
+    /// F32: a (the) removable statement carries a comment that spans several lines
+    pub multiline_comment: Option<bool>,
+    /// F34: its comments would be re-attached out of order (two consecutive comments two or more
+    /// lines apart, and the next token has leading trivia of its own)
+    pub out_of_order: Option<bool>,
+}
+
+type TriviaInfo = (darklua_core::nodes::TriviaKind, String, Option<usize>);
+
+/// The inputs of `Block::remove_statement(index)` read from the real tokens: the kept trivia of
+/// the statement (leading of its first token, trailing of its semicolon or last token, without
+/// whitespace) and the leading trivia of the token they move to.
+fn attach_info(block: &darklua_core::nodes::Block, index: usize, code: &str) -> (Vec<TriviaInfo>, Vec<TriviaInfo>) {
+    use darklua_core::nodes::TriviaKind;
+    let read = |t: &darklua_core::nodes::Trivia| (t.kind(), t.try_read().map(|s| s.to_owned()).unwrap_or_else(|| t.read(code).to_owned()), t.get_line_number());
+    let mut scratch = block.clone();
+    let statements_len = scratch.statements_len();
+    let semicolon_trailing: Option<Vec<TriviaInfo>> = scratch.get_tokens().and_then(|tokens| {
+        if tokens.semicolons.len() == statements_len {
+            tokens.semicolons[index].as_ref().map(|s| s.iter_trailing_trivia().map(read).collect())
+        } else {
+            None
+        }
+    });
+    let mut cs: Vec<TriviaInfo> = Vec::new();
+    let mut own: Vec<TriviaInfo> = Vec::new();
+    let mut has_next = false;
+    for (i, statement) in scratch.iter_mut_statements().enumerate() {
+        if i == index {
+            cs.extend(statement.mutate_first_token().iter_leading_trivia().map(read));
+            match &semicolon_trailing {
+                Some(t) => cs.extend(t.iter().cloned()),
+                None => cs.extend(statement.mutate_last_token().iter_trailing_trivia().map(read)),
+            }
+        } else if i == index + 1 {
+            has_next = true;
+            own.extend(statement.mutate_first_token().iter_leading_trivia().map(read));
+        }
+    }
+    if !has_next {
+        if let Some(last) = scratch.mutate_last_statement() {
+            own.extend(last.mutate_first_token().iter_leading_trivia().map(read));
+        } else if let Some(token) = scratch.get_tokens().and_then(|t| t.final_token.as_ref()) {
+            own.extend(token.iter_leading_trivia().map(read));
+        }
+    }
+    cs.retain(|(k, _, _)| *k != TriviaKind::Whitespace);
+    (cs, own)
+}
+
+fn flags_of(cs: &[TriviaInfo], own: &[TriviaInfo]) -> (bool, bool) {
+    let multiline = cs.iter().any(|(_, text, _)| text.contains('\n'));
+    let lines: Vec<usize> = cs.iter().filter_map(|(_, _, l)| *l).collect();
+    let wide_gap = lines.windows(2).any(|w| w[1].saturating_sub(w[0]) >= 2);
+    (multiline, wide_gap && !own.is_empty())
+}
+
+/// Flags of ONE statement of the top-level block.
+pub fn removal_flags_at(code: &str, index: usize) -> RemovalFlags {
+    let parsed = std::panic::catch_unwind(|| darklua_core::Parser::default().preserve_tokens().parse(code));
+    match parsed {
+        Ok(Ok(block)) if index < block.statements_len() => {
+            let (cs, own) = attach_info(&block, index, code);
+            let (m, o) = flags_of(&cs, &own);
+            RemovalFlags { multiline_comment: Some(m), out_of_order: Some(o) }
+        }
+        _ => RemovalFlags::default(),
+    }
+}
+
+struct FlagCollector<'a> {
+    code: &'a str,
+    multiline: bool,
+    out_of_order: bool,
+}
+
+impl darklua_core::process::NodeProcessor for FlagCollector<'_> {
+    fn process_block(&mut self, block: &mut darklua_core::nodes::Block) {
+        for index in 0..block.statements_len() {
+            let (cs, own) = attach_info(block, index, self.code);
+            let (m, o) = flags_of(&cs, &own);
+            self.multiline |= m;
+            self.out_of_order |= o;
+        }
+    }
+}
+
+/// Flags over EVERY statement of every block of a program (which statements a pipeline removes
+/// is not known in advance): true if some statement is in the respective shape.
+pub fn removal_flags_any(code: &str) -> RemovalFlags {
+    use darklua_core::process::{DefaultVisitor, NodeVisitor};
+    let parsed = std::panic::catch_unwind(|| darklua_core::Parser::default().preserve_tokens().parse(code));
+    match parsed {
+        Ok(Ok(mut block)) => {
+            let mut collector = FlagCollector { code, multiline: false, out_of_order: false };
+            let walked = std::panic::catch_unwind(std::panic::AssertUnwindSafe(|| {
+                DefaultVisitor::visit_block(&mut block, &mut collector);
+            }));
+            if walked.is_err() {
+                return RemovalFlags::default();
+            }
+            RemovalFlags { multiline_comment: Some(collector.multiline), out_of_order: Some(collector.out_of_order) }
+        }
+        _ => RemovalFlags::default(),
+    }
+}
+
 /// `function a.b:c(` somewhere in the text (over-approximation: a `:` between `function` and the
 /// next `(`).
 fn has_method_definition(code: &str) -> bool {
@@ -321,7 +514,12 @@ fn has_multiline_block_comment(code: &str) -> bool {
 /// excuses, for pipelines containing rule `r` on programs containing `c`, either every marker or
 /// only the names declared by `local function <name>`. Returns (finding id, excused markers;
 /// `None` = all).
-fn known_region(code: &str, rules: &[String], known: &[Value]) -> Vec<(String, Option<Vec<String>>)> {
+fn known_region(
+    code: &str,
+    rules: &[String],
+    known: &[Value],
+    flags: RemovalFlags,
+) -> Vec<(String, Option<Vec<String>>)> {
     let mut regions = Vec::new();
     for k in known {
         let region = &k["region"];
@@ -334,8 +532,26 @@ fn known_region(code: &str, rules: &[String], known: &[Value]) -> Vec<(String, O
         if !rules.iter().any(|r| region_rules.iter().any(|x| r.contains(x))) {
             continue;
         }
-        if region["when"].as_str() == Some("multiline_block_comment") && !has_multiline_block_comment(code) {
-            continue;
+        if region["when"].as_str() == Some("removed_statement_multiline_comment") {
+            // F32 needs a comment spanning several lines ATTACHED TO THE REMOVED STATEMENT. The
+            // directed family decides this per removed statement, the random generator only places
+            // such comments between statements in flagged programs; an input of unknown origin
+            // (replay without the flag) falls back to "some block comment spans lines".
+            match flags.multiline_comment {
+                Some(false) => continue,
+                Some(true) => {}
+                None => {
+                    if !has_multiline_block_comment(code) {
+                        continue;
+                    }
+                }
+            }
+        }
+        if region["when"].as_str() == Some("removed_statement_comments_out_of_order") {
+            // F34: decided from the real tokens (see `RemovalFlags`); unknown = not excused
+            if flags.out_of_order != Some(true) {
+                continue;
+            }
         }
         if let Some(needle) = region["code_contains"].as_str() {
             let other = region["or_rule"].as_str().map(|o| rules.iter().any(|r| r.contains(o))).unwrap_or(false);
@@ -384,10 +600,12 @@ pub fn check_case(
     code: &str,
     pipeline: &Pipeline,
     known: &[Value],
+    flags: RemovalFlags,
 ) -> bool {
     let config = config_of(&pipeline.rules);
     let input = json!({"kind": "program", "code": code, "config": config, "shift": pipeline.shift,
-        "pipeline": pipeline.kind});
+        "pipeline": pipeline.kind,
+        "removal_flags": {"multiline_comment": flags.multiline_comment, "out_of_order": flags.out_of_order}});
     let (out, trace) = match real_process(code, &config) {
         Ok(x) => x,
         Err(e) => {
@@ -413,7 +631,7 @@ pub fn check_case(
             return true;
         }
     };
-    let regions = known_region(code, &pipeline.rules, known);
+    let regions = known_region(code, &pipeline.rules, known, flags);
     let all_failures = marker_failures(code, &out, pipeline.shift, recomputes_literals(&pipeline.rules));
     let excused = |m: &String| regions.iter().any(|(_, names)| names.as_ref().map(|n| n.contains(m)).unwrap_or(true));
     let failure = all_failures.iter().find(|(m, _)| !excused(m)).map(|(_, what)| what.clone());
@@ -509,6 +727,427 @@ pub fn check_case(
     true
 }
 
+
+// ------------------------------------------------------------------------------------------
+// directed family: a removable statement with documentation comments (Block::remove_statement)
+// ------------------------------------------------------------------------------------------
+
+pub struct Removal {
+    pub code: String,
+    pub rule: &'static str,
+    /// a comment ATTACHED TO THE REMOVED STATEMENT spans several lines (finding F32)
+    pub f32: bool,
+    /// index of the removable statement in the top-level block (None: nested shape)
+    pub removed_index: Option<usize>,
+    pub shape: String,
+}
+
+/// (text, spans several lines)
+fn doc_comment(rng: &mut Rng, tag: &str, allow_multiline: bool) -> (String, bool) {
+    match rng.below(if allow_multiline { 6 } else { 4 }) {
+        0 | 1 => (format!("-- {}", tag), false),
+        2 => (format!("--[[ {} ]]", tag), false),
+        3 => (format!("--[=[ {} ]=]", tag), false),
+        4 => (format!("--[[ {}\n   more ]]", tag), true),
+        _ => (format!("--[==[\n{}\n\n]==]", tag), true),
+    }
+}
+
+pub fn gen_removal(rng: &mut Rng, multiline_rate: u32) -> Removal {
+    let allow_ml = (rng.below(100) as u32) < multiline_rate;
+    let kind = rng.below(6);
+    let (rule, statement): (&'static str, String) = match kind {
+        0 => ("remove_unused_variable", (*rng.pick(&["local v9 = 1000009", "local v9 =\n  1000009", "local v9, v8 = 1000009, 's8'"])).to_owned()),
+        1 => ("remove_empty_do", (*rng.pick(&["do end", "do\nend", "do do end end"])).to_owned()),
+        2 => ("remove_unused_while", (*rng.pick(&["while false do m8() end", "while false do\n  m8()\nend"])).to_owned()),
+        3 => ("remove_unused_if_branch", (*rng.pick(&["if false then m8() end", "if false then\n  m8()\nend"])).to_owned()),
+        4 => ("remove_types", (*rng.pick(&["type T9 = number", "type T9 = {\n  x: number,\n}"])).to_owned()),
+        _ => ("filter_after_early_return", "m8()".to_owned()),
+    };
+    let mut f32 = false;
+    let mut code = String::new();
+    let mut shape = String::new();
+    let nested = kind == 5;
+    if nested {
+        code.push_str("function g7()\n  do return end");
+    } else {
+        code.push_str("m1()");
+    }
+    // trailing comment of the statement BEFORE (not attached to the removed one)
+    match rng.below(4) {
+        0 => code.push_str(" -- p"),
+        1 => code.push_str(" --[[ p ]]"),
+        _ => {}
+    }
+    code.push('\n');
+    for _ in 0..rng.below(3) {
+        code.push('\n');
+    }
+    let docs = rng.below(5);
+    shape.push_str(&format!("{} docs", docs));
+    for i in 0..docs {
+        if rng.chance(1, 4) {
+            code.push_str("  ");
+        }
+        let (text, ml) = doc_comment(rng, &format!("d{}", i), allow_ml);
+        f32 |= ml;
+        code.push_str(&text);
+        if rng.chance(1, 6) {
+            // a second comment on the same line
+            code.push_str(" --[[ same line ]]");
+        }
+        code.push('\n');
+        if rng.chance(1, 5) {
+            code.push('\n');
+            if rng.chance(1, 3) {
+                code.push('\n');
+            }
+        }
+    }
+    code.push_str(&statement);
+    let semicolon = rng.chance(1, 5);
+    if semicolon {
+        code.push_str(if rng.chance(1, 2) { ";" } else { " ;" });
+        shape.push_str(", semicolon");
+    }
+    match rng.below(5) {
+        0 | 1 => {
+            code.push_str(" -- t");
+            shape.push_str(", trailing line comment");
+        }
+        2 => {
+            code.push_str(" --[[ t ]]");
+            shape.push_str(", trailing block comment");
+        }
+        3 if allow_ml => {
+            code.push_str(" --[[ t\n u ]]");
+            f32 = true;
+            shape.push_str(", trailing multi-line comment");
+        }
+        _ => {}
+    }
+    code.push('\n');
+    for _ in 0..rng.below(3) {
+        code.push('\n');
+    }
+    // the next statement's own documentation (leading trivia of the token the comments move to)
+    let own = rng.below(3);
+    for i in 0..own {
+        let (text, _) = doc_comment(rng, &format!("own{}", i), true);
+        code.push_str(&text);
+        code.push('\n');
+        if rng.chance(1, 4) {
+            code.push('\n');
+        }
+    }
+    shape.push_str(&format!(", {} own", own));
+    if nested {
+        code.push_str("end\nm4()\nm5()");
+    } else {
+        code.push_str("m4()\nm5() m6()\n\nm7()");
+    }
+    if rng.chance(1, 2) {
+        code.push('\n');
+    }
+    if rng.chance(1, 4) {
+        code = code.replace('\n', "\r\n");
+    }
+    Removal { code, rule, f32, removed_index: if nested { None } else { Some(1) }, shape }
+}
+
+fn removal_pipelines(rule: &str, defaults: &[String]) -> Vec<Pipeline> {
+    let r = rule.to_owned();
+    let s = "remove_spaces".to_owned();
+    let mut v = vec![
+        Pipeline { kind: "directed: [rule]", rules: vec![r.clone()], shift: 0 },
+        Pipeline { kind: "directed: [remove_spaces, rule]", rules: vec![s.clone(), r.clone()], shift: 0 },
+        Pipeline { kind: "directed: [rule, remove_spaces]", rules: vec![r.clone(), s.clone()], shift: 0 },
+        Pipeline { kind: "directed: [rule, remove_comments]", rules: vec![r.clone(), "remove_comments".to_owned()], shift: 0 },
+    ];
+    if defaults.iter().any(|d| d == rule) {
+        v.push(Pipeline { kind: "directed: default rules", rules: defaults.to_vec(), shift: 0 });
+    } else {
+        let mut rules = defaults.to_vec();
+        rules.push(r);
+        v.push(Pipeline { kind: "directed: default rules + rule", rules, shift: 0 });
+    }
+    v
+}
+
+fn rt_item(kind: darklua_core::nodes::TriviaKind, text: &str, line: Option<usize>) -> String {
+    format!(
+        "{}{}:{}",
+        if kind == darklua_core::nodes::TriviaKind::Comment { "c" } else { "w" },
+        line.map(|l| l.to_string()).unwrap_or_else(|| "-".to_owned()),
+        crate::model::hex(text.as_bytes())
+    )
+}
+
+/// Correspondence of `Block::remove_statement` with the Lean `reattach`: the real function is
+/// run on the parsed block; its inputs (kept trivia of the removed statement, leading trivia of
+/// the next token) are read from the real tokens and given to the model.
+fn check_reattach(acc: &mut Acc, model: &mut Model, code: &str, index: usize) {
+    use darklua_core::nodes::TriviaKind;
+    let parsed = std::panic::catch_unwind(|| darklua_core::Parser::default().preserve_tokens().parse(code));
+    let mut block = match parsed {
+        Ok(Ok(b)) => b,
+        _ => return,
+    };
+    if index + 1 >= block.statements_len() {
+        return;
+    }
+    let input = json!({"kind": "reattach", "code": code, "index": index});
+    let read = |t: &darklua_core::nodes::Trivia| (t.kind(), t.read(code).to_owned(), t.get_line_number());
+    let mut scratch = block.clone();
+    let statements_len = scratch.statements_len();
+    let semicolon_trailing: Option<Vec<_>> = scratch.get_tokens().and_then(|tokens| {
+        if tokens.semicolons.len() == statements_len {
+            tokens.semicolons[index].as_ref().map(|s| s.iter_trailing_trivia().map(read).collect())
+        } else {
+            None
+        }
+    });
+    let mut cs: Vec<(TriviaKind, String, Option<usize>)> = Vec::new();
+    let mut own = Vec::new();
+    for (i, statement) in scratch.iter_mut_statements().enumerate() {
+        if i == index {
+            cs.extend(statement.mutate_first_token().iter_leading_trivia().map(read));
+            match &semicolon_trailing {
+                Some(t) => cs.extend(t.iter().cloned()),
+                None => cs.extend(statement.mutate_last_token().iter_trailing_trivia().map(read)),
+            }
+        } else if i == index + 1 {
+            own.extend(statement.mutate_first_token().iter_leading_trivia().map(read));
+        }
+    }
+    cs.retain(|(k, _, _)| *k != TriviaKind::Whitespace);
+    let done = std::panic::catch_unwind(std::panic::AssertUnwindSafe(|| block.remove_statement(index)));
+    if done.is_err() {
+        return;
+    }
+    let real: Vec<String> = match block.iter_mut_statements().nth(index) {
+        Some(next) => next
+            .mutate_first_token()
+            .iter_leading_trivia()
+            .map(|t| {
+                // re-created gaps carry their own content, the others still refer to the source
+                let text = t.try_read().map(|s| s.to_owned()).unwrap_or_else(|| t.read(code).to_owned());
+                rt_item(t.kind(), &text, t.get_line_number())
+            })
+            .collect(),
+        None => return,
+    };
+    let mut words = vec!["c04.reattach".to_owned()];
+    words.extend(cs.iter().map(|(k, t, l)| rt_item(k.clone(), t, *l)));
+    words.push("|".to_owned());
+    words.extend(own.iter().map(|(k, t, l)| rt_item(k.clone(), t, *l)));
+    let request = words.join(" ");
+    let answer = model.ask(&request);
+    let expected = format!("ok {}", real.join(" "));
+    let expected = expected.trim_end().to_owned();
+    acc.case(if cs.len() >= 2 { Some(("reattach", code)) } else { None });
+    acc.hist("reattach", &format!("{} kept trivia, {} own", cs.len().min(5), own.len().min(4)));
+    if answer.trim_end() != expected {
+        acc.violation(Violation {
+            kind: "correspondence".into(),
+            check: "remove_statement re-attachment".into(),
+            what: format!("model {:?}, real {:?}", answer, expected),
+            input,
+            failing_input_found: false,
+        });
+    }
+}
+
+// ------------------------------------------------------------------------------------------
+// bundling face
+// ------------------------------------------------------------------------------------------
+
+pub struct BundleCase {
+    /// files[0] is the entry point
+    pub files: Vec<(String, String)>,
+    pub rules: Vec<String>,
+}
+
+pub fn gen_bundle(rng: &mut Rng) -> BundleCase {
+    let modules = 2 + rng.below(3);
+    let mut files = Vec::new();
+    let layout_for = |rng: &mut Rng| {
+        Layout::plain(*rng.pick(&["\n", "\n", "\r\n"]), *rng.pick(&[0u32, 100, 250]), *rng.pick(&[200u32, 400, 600]), 0)
+    };
+    // which modules are required by the entry and which by the module after them
+    let mut entry_requires: Vec<usize> = Vec::new();
+    let mut nested: Vec<Option<usize>> = vec![None; modules];
+    for i in 0..modules {
+        if i + 1 < modules && rng.chance(1, 3) {
+            nested[i + 1] = Some(i);
+            if rng.chance(1, 3) {
+                entry_requires.push(i);
+            }
+        } else {
+            entry_requires.push(i);
+        }
+    }
+    if !entry_requires.contains(&(modules - 1)) {
+        entry_requires.push(modules - 1);
+    }
+    rng.shuffle(&mut entry_requires);
+    for i in 0..modules {
+        let mut g = ProgGen::new(rng.fork(), 15 + rng.below(40) as i32);
+        g.markers = true;
+        g.multiline_strings = rng.chance(1, 3);
+        g.set_marker_base(10_000 * (i as u32 + 1));
+        if let Some(j) = nested[i] {
+            g.require_statement(&format!("./mod{}", j));
+        }
+        let n = rng.below(3);
+        g.module_body(1 + rng.below(2) as u32, n);
+        let toks = std::mem::take(&mut g.toks);
+        let layout = layout_for(rng);
+        files.push((format!("src/mod{}.lua", i), lay_out(rng, &toks, &layout)));
+    }
+    let mut g = ProgGen::new(rng.fork(), 15 + rng.below(40) as i32);
+    g.markers = true;
+    g.set_marker_base(90_000);
+    for i in &entry_requires {
+        if rng.chance(1, 3) {
+            g.statements(1, 1);
+        }
+        g.require_statement(&format!("./mod{}", i));
+    }
+    g.statements(1 + rng.below(2) as u32, 1 + rng.below(3));
+    let toks = std::mem::take(&mut g.toks);
+    let layout = layout_for(rng);
+    let mut all = vec![("src/main.lua".to_owned(), lay_out(rng, &toks, &layout))];
+    all.extend(files);
+    let rules: Vec<String> = match rng.below(4) {
+        0 => vec![],
+        1 => vec!["remove_spaces".into()],
+        2 => vec!["remove_spaces".into(), "remove_comments".into()],
+        _ => vec!["remove_comments".into()],
+    };
+    BundleCase { files: all, rules }
+}
+
+/// Lines a bundled file takes in the output: where it ends (a final newline = the file ends on
+/// the next line). Independent of `utils/lines.rs`.
+fn total_lines(content: &str) -> usize {
+    content.matches('\n').count() + 1
+}
+
+/// The bundling oracle: Some(description) when the markers are not shifted by the known amount.
+/// The order of the modules is read off the output (first marker of each file); a file is
+/// shifted by the total lines of the files written before it, the entry point comes last.
+fn bundle_failure(files: &[(String, String)], out: &str) -> Result<usize, String> {
+    let out_markers: BTreeMap<String, Vec<usize>> = {
+        let mut m: BTreeMap<String, Vec<usize>> = BTreeMap::new();
+        for (k, l) in find_markers(out) {
+            m.entry(k).or_default().push(l);
+        }
+        m
+    };
+    // per file: markers unique in that file and in the output
+    let mut per_file: Vec<(usize, Vec<(String, usize, usize)>)> = Vec::new();
+    let mut all_inputs: BTreeMap<String, usize> = BTreeMap::new();
+    for (_, content) in files {
+        for (k, _) in find_markers(content) {
+            *all_inputs.entry(k).or_default() += 1;
+        }
+    }
+    for (index, (_, content)) in files.iter().enumerate() {
+        let mut list = Vec::new();
+        for (k, l) in find_markers(content) {
+            if all_inputs[&k] == 1 {
+                if let Some(ls) = out_markers.get(&k) {
+                    if ls.len() == 1 {
+                        list.push((k, l, ls[0]));
+                    }
+                }
+            }
+        }
+        per_file.push((index, list));
+    }
+    let mut order: Vec<(usize, usize)> = per_file
+        .iter()
+        .filter(|(_, list)| !list.is_empty())
+        .map(|(i, list)| (list.iter().map(|(_, _, o)| *o).min().unwrap(), *i))
+        .collect();
+    order.sort();
+    if per_file.iter().any(|(i, list)| *i != 0 && list.is_empty()) {
+        return Err("a bundled module has no surviving marker".to_owned());
+    }
+    if order.last().map(|(_, i)| *i) != Some(0) {
+        return Err(format!("the entry point's code is not written last (order of first markers: {:?})", order));
+    }
+    let mut shift = 0usize;
+    let mut checked = 0usize;
+    for (_, index) in &order {
+        let (path, content) = &files[*index];
+        for (k, l, o) in &per_file[*index].1 {
+            if l + shift != *o {
+                return Err(format!(
+                    "marker {} of `{}` (line {}) should be shifted by {} lines (the files written before it) to line {} but is on line {}",
+                    k, path, l, shift, l + shift, o
+                ));
+            }
+            checked += 1;
+        }
+        shift += total_lines(content);
+    }
+    Ok(checked)
+}
+
+/// Finding F33 region: some module is required at two or more sites (the first site's call
+/// expression, tokens and trivia included, is reused at the others).
+fn has_duplicate_require(files: &[(String, String)]) -> bool {
+    let mut counts: BTreeMap<String, usize> = BTreeMap::new();
+    for (_, content) in files {
+        let mut rest = content.as_str();
+        while let Some(i) = rest.find("\"./") {
+            rest = &rest[i + 1..];
+            if let Some(j) = rest.find('"') {
+                *counts.entry(rest[..j].to_owned()).or_default() += 1;
+                rest = &rest[j + 1..];
+            }
+        }
+    }
+    counts.values().any(|c| *c > 1)
+}
+
+fn check_bundle(acc: &mut Acc, case: &BundleCase, known: &[Value]) -> bool {
+    let input = json!({"kind": "bundle", "files": case.files, "rules": case.rules});
+    let out = match real_bundle(&case.files, &case.rules) {
+        Ok(o) => o,
+        Err(e) => {
+            acc.hist("bundle", if e == "panic" { "panic" } else { "not processed" });
+            if acc.notes.is_empty() {
+                acc.notes.push(format!("bundle not processed: {}", &e[..e.len().min(300)]));
+            }
+            return false;
+        }
+    };
+    match bundle_failure(&case.files, &out) {
+        Ok(checked) => {
+            acc.hist("bundle", &format!("{} modules, markers shifted by the known amounts", case.files.len() - 1));
+            acc.case(if checked >= 4 { Some(("bundle", &case.files)) } else { None });
+        }
+        Err(what) => {
+            let f33 = known.iter().any(|k| k["region"]["bundle"].is_string()) && has_duplicate_require(&case.files);
+            if f33 {
+                acc.hist("bundle", "markers displaced inside known finding region F33 (module required twice)");
+            } else {
+                acc.violation(Violation {
+                    kind: "oracle".into(),
+                    check: "bundle-shift".into(),
+                    what: format!("{}; output {:?}", what, out),
+                    input,
+                    failing_input_found: true,
+                })
+            }
+        }
+    }
+    true
+}
+
 const FIXED: &[(&str, &[&str], usize)] = &[
     ("local v1 = m2(\n  g3,\n  's4'\n)\nreturn v1", &["remove_spaces"], 0),
     ("m1()\n\n\n-- c\nm2() --[[ x\n y ]] m3()\nm4()", &["remove_spaces"], 0),
@@ -536,13 +1175,40 @@ pub fn run(report: &mut Report, replay: Option<&str>) {
         let text = std::fs::read_to_string(path).unwrap_or_default();
         let v: Value = serde_json::from_str(&text).unwrap_or(Value::Null);
         let input = &v["input"];
+        if input["kind"] == "bundle" {
+            let files: Vec<(String, String)> = input["files"].as_array().map(|a| a.iter()
+                .filter_map(|f| Some((f[0].as_str()?.to_owned(), f[1].as_str()?.to_owned()))).collect()).unwrap_or_default();
+            let rules: Vec<String> = input["rules"].as_array().map(|a| a.iter()
+                .filter_map(|r| r.as_str().map(|s| s.to_owned())).collect()).unwrap_or_default();
+            let mut acc = Acc::default();
+            check_bundle(&mut acc, &BundleCase { files, rules }, &known);
+            acc.flush(report);
+            return;
+        }
+        if input["kind"] == "reattach" {
+            let mut acc = Acc::default();
+            check_reattach(&mut acc, &mut model, input["code"].as_str().unwrap_or(""), input["index"].as_u64().unwrap_or(0) as usize);
+            acc.flush(report);
+            return;
+        }
         if let (Some(code), Some(config)) = (input["code"].as_str(), input["config"].as_str()) {
-            // the configuration text is replayed as is
+            // the configuration text is replayed as is; the removal flags recorded with the case
+            // (decided per removed statement for the directed family) are reused
             let shift = input["shift"].as_u64().unwrap_or(0) as usize;
+            let any = removal_flags_any(code);
+            let flags = RemovalFlags {
+                multiline_comment: input["removal_flags"]["multiline_comment"].as_bool().or(any.multiline_comment),
+                out_of_order: input["removal_flags"]["out_of_order"].as_bool().or(any.out_of_order),
+            };
+            let rules_text = config.trim().trim_start_matches("{rules: [").trim_end_matches("]}");
+            let rule_names: Vec<String> = vec![rules_text.to_owned()];
+            let regions = known_region(code, &rule_names, &known, flags);
             let mut acc = Acc::default();
             match real_process(code, config) {
                 Ok((out, _)) => {
-                    if let Some(f) = marker_failure(code, &out, shift, config.contains("compute_expression")) {
+                    let failures = marker_failures(code, &out, shift, config.contains("compute_expression"));
+                    let excused = |m: &String| regions.iter().any(|(_, names)| names.as_ref().map(|n| n.contains(m)).unwrap_or(true));
+                    if let Some((_, f)) = failures.iter().find(|(m, _)| !excused(m)) {
                         acc.violation(Violation {
                             kind: "oracle".into(),
                             check: "marker-line".into(),
@@ -560,6 +1226,23 @@ pub fn run(report: &mut Report, replay: Option<&str>) {
     }
 
     // `fork` mixes the state: consecutive seeds must not share thread streams
+    if let Ok(spec) = std::env::var("C04_BUNDLE_PROBE") {
+        // development aid: JSON {"files": [[path, content], ...], "rules": [...]}
+        let v: Value = serde_json::from_str(&spec).expect("probe json");
+        let files: Vec<(String, String)> = v["files"].as_array().unwrap().iter()
+            .map(|f| (f[0].as_str().unwrap().to_owned(), f[1].as_str().unwrap().to_owned())).collect();
+        let rules: Vec<String> = v["rules"].as_array().map(|a| a.iter().map(|r| r.as_str().unwrap().to_owned()).collect()).unwrap_or_default();
+        match real_bundle(&files, &rules) {
+            Ok(out) => {
+                for (i, l) in out.lines().enumerate() {
+                    eprintln!("{:3} | {}", i + 1, l);
+                }
+            }
+            Err(e) => eprintln!("ERR {}", e),
+        }
+        return;
+    }
+
     let mut rng = Rng::new(report.seed).fork();
     let thorough = report.is_thorough();
     let defaults = default_rule_names();
@@ -569,6 +1252,31 @@ pub fn run(report: &mut Report, replay: Option<&str>) {
     for f in &known {
         let id = f["id"].as_str().unwrap_or("?");
         let w = &f["witness"];
+        if let Some(files) = w["files"].as_array() {
+            let files: Vec<(String, String)> = files.iter()
+                .filter_map(|f| Some((f[0].as_str()?.to_owned(), f[1].as_str()?.to_owned()))).collect();
+            let rules: Vec<String> = w["rules"].as_array().map(|a| a.iter()
+                .filter_map(|r| r.as_str().map(|s| s.to_owned())).collect()).unwrap_or_default();
+            if let Ok(out) = real_bundle(&files, &rules) {
+                if let Err(what) = bundle_failure(&files, &out) {
+                    let markers = find_markers(&out);
+                    let as_recorded = w["output_lines_of"].as_object().map(|o| o.iter().all(|(m, l)|
+                        markers.iter().any(|(k, line)| k == m && Some(*line as u64) == l.as_u64()))).unwrap_or(true);
+                    if as_recorded {
+                        report.known_finding(id, &what);
+                    } else {
+                        report.violation(Violation {
+                            kind: "finding-changed".into(),
+                            check: "known-finding-replay".into(),
+                            what: format!("{}: now {}", id, what),
+                            input: json!({"kind": "bundle", "files": files, "rules": rules}),
+                            failing_input_found: true,
+                        });
+                    }
+                }
+            }
+            continue;
+        }
         if let (Some(code), Some(config)) = (w["code"].as_str(), w["config"].as_str()) {
             let shift = w["shift"].as_u64().unwrap_or(0) as usize;
             match real_process(code, config) {
@@ -596,7 +1304,7 @@ pub fn run(report: &mut Report, replay: Option<&str>) {
     let mut acc = Acc::default();
     for (code, rules, shift) in FIXED {
         let p = Pipeline { kind: "fixed", rules: rules.iter().map(|r| (*r).to_owned()).collect(), shift: *shift };
-        if !check_case(&mut acc, &mut model, code, &p, &known) {
+        if !check_case(&mut acc, &mut model, code, &p, &known, removal_flags_any(code)) {
             acc.notes.push(format!("fixed program not processed: {:?}", code));
         }
     }
@@ -614,16 +1322,65 @@ pub fn run(report: &mut Report, replay: Option<&str>) {
                             rules: rules.iter().filter_map(|r| r.as_str().map(|s| s.to_owned())).collect(),
                             shift: v["shift"].as_u64().unwrap_or(0) as usize,
                         };
-                        check_case(&mut acc, &mut model, code, &p, &known);
+                        check_case(&mut acc, &mut model, code, &p, &known, removal_flags_any(code));
                         acc.count("corpus_cases", 1);
                     }
                 }
             }
         }
     }
+    // directed family: removable statements with documentation comments
+    let removals = if thorough { 8_000 } else { 800 };
+    for i in 0..removals {
+        // a third of the cases may carry comments that span several lines (F32 region, decided
+        // per removed statement)
+        let removal = gen_removal(&mut rng, if i % 3 == 0 { 100 } else { 0 });
+        if let Some(index) = removal.removed_index {
+            check_reattach(&mut acc, &mut model, &removal.code, index);
+        }
+        // the region of F32 / F34 is decided for the removed statement itself, from the real tokens
+        let flags = match removal.removed_index {
+            Some(index) => removal_flags_at(&removal.code, index),
+            None => removal_flags_any(&removal.code),
+        };
+        if removal.removed_index.is_some() && flags.multiline_comment != Some(removal.f32) {
+            // (a type declaration's trailing comment is not reachable through mutate_last_token, so
+            // it is not re-attached: the tokens, not the generator, decide)
+            acc.hist("directed removal", "generator and tokens disagree on `multi-line comment attached` (tokens decide)");
+        }
+        for p in removal_pipelines(removal.rule, &defaults) {
+            if !check_case(&mut acc, &mut model, &removal.code, &p, &known, flags) {
+                acc.notes.push(format!("directed removal not processed: {:?}", removal.code));
+                break;
+            }
+        }
+        acc.hist("directed removal", &format!("{}{}{}", removal.rule,
+            if flags.multiline_comment == Some(true) { " (multi-line comment attached: F32 region)" } else { "" },
+            if flags.out_of_order == Some(true) { " (re-attached out of order: F34 region)" } else { "" }));
+        if i == 0 {
+            acc.sample(json!({"directed_removal": removal.code, "rule": removal.rule, "shape": removal.shape}));
+        }
+    }
+    // fixed bundles: file endings without trailing trivia / with footer
+    for (b_ending, rules) in [("", vec![]), ("\n", vec![]), ("\n\n-- end of module b\n", vec![]), ("", vec!["remove_spaces".to_owned(), "remove_comments".to_owned()]),
+        (" -- tail", vec![]), ("\n--[[ footer\n block ]]", vec!["remove_spaces".to_owned()])] {
+        let case = BundleCase {
+            files: vec![
+                ("src/main.lua".to_owned(), "local v1 = require(\"./a\")\nlocal v2 = require(\"./b\")\nlocal v3 = require(\"./c\")\nm4(v1,\n  v2,\n  g5, v3\n)\n".to_owned()),
+                ("src/a.lua".to_owned(), "local v10 = g11\n\nreturn {\n  v10, g12,\n}\n".to_owned()),
+                ("src/b.lua".to_owned(), format!("local v20 = g21\nreturn v20 .. g22{}", b_ending)),
+                ("src/c.lua".to_owned(), "return g31\n".to_owned()),
+            ],
+            rules,
+        };
+        if !check_bundle(&mut acc, &case, &known) {
+            acc.notes.push("fixed bundle not processed".to_owned());
+        }
+    }
     acc.flush(report);
 
     let threads = 12usize;
+    let bundles_per_thread = if thorough { 1_500 } else { 150 };
     let programs_per_thread = if thorough { 10_000 } else { 1_000 };
     let pipelines_per_program = 3;
     let seeds: Vec<Rng> = (0..threads).map(|_| rng.fork()).collect();
@@ -635,11 +1392,17 @@ pub fn run(report: &mut Report, replay: Option<&str>) {
             std::thread::spawn(move || {
                 let mut local = Acc::default();
                 let mut model = Model::spawn();
-                for _ in 0..programs_per_thread {
-                    let code = gen_marker_program(&mut rng);
+                for i in 0..programs_per_thread {
+                    if i < bundles_per_thread {
+                        let case = gen_bundle(&mut rng);
+                        check_bundle(&mut local, &case, &known);
+                    }
+                    let program = gen_marker_program(&mut rng);
+                    let code = program.code;
+                    let flags = removal_flags_any(&code);
                     for _ in 0..pipelines_per_program {
                         let p = gen_pipeline(&mut rng, &defaults);
-                        if !check_case(&mut local, &mut model, &code, &p, &known) {
+                        if !check_case(&mut local, &mut model, &code, &p, &known, flags) {
                             break;
                         }
                         if local.samples.is_empty() && code.len() < 160 {
